@@ -189,6 +189,15 @@ type Peer struct {
 	ClosedAt time.Duration
 	ReadErr  error
 	OnMsg    func(m RecvMsg) // called from the reader goroutine
+	// KeepTransport keeps the transport and work connections open after the control connection has closed.
+	KeepTransport bool
+	conns         []net.Conn // every logical connection opened (non-mux mode: separate transports)
+}
+
+func (p *Peer) extra() []net.Conn {
+	p.mu.Lock()
+	defer p.mu.Unlock()
+	return append([]net.Conn{}, p.conns...)
 }
 
 // NewPeer creates a scripted client on its own node.
@@ -232,7 +241,13 @@ func (p *Peer) rawConn() (net.Conn, error) {
 // Connect returns a new logical connection to the server: a mux stream if Mux, else a new transport connection.
 func (p *Peer) Connect() (net.Conn, error) {
 	if !p.Opts.Mux {
-		return p.rawConn()
+		c, err := p.rawConn()
+		if err == nil {
+			p.mu.Lock()
+			p.conns = append(p.conns, c)
+			p.mu.Unlock()
+		}
+		return c, err
 	}
 	if p.sess == nil || p.sess.IsClosed() {
 		c, err := p.rawConn()
@@ -310,8 +325,19 @@ func (p *Peer) reader() {
 			p.Closed = true
 			p.ClosedAt = p.w.Net.Now()
 			p.ReadErr = err
+			keep := p.KeepTransport
 			p.cond.Broadcast()
 			p.mu.Unlock()
+			if !keep {
+				// like a real client: once the control connection is gone the whole transport is given up,
+				// which also ends every work connection this identity still has open
+				if p.sess != nil {
+					p.sess.Close()
+				}
+				for _, c := range p.extra() {
+					c.Close()
+				}
+			}
 			return
 		}
 		m := RecvMsg{typ, body, p.w.Net.Now(), seq}
